@@ -135,10 +135,12 @@ def sel_key(sel):
             str(sel['daddr']), sel['prefixlen_d'], sel['dport'], sel['dport_mask'], sel['proto'], sel['family'])
 
 
-def ack(req_bytes, err=0):
-    """nlmsgerr frame answering req_bytes (err = positive errno or 0)."""
+def ack(req_bytes, err=0, portid=None):
+    """nlmsgerr frame answering req_bytes (err = positive errno or 0), addressed to the requesting socket's port ID"""
     hdr = req_bytes[:16].ljust(16, b'\0')
     ln, typ, flags, seq, pid = struct.unpack_from('<IHHII', hdr, 0)
+    if portid is not None:
+        pid = portid
     return struct.pack('<IHHII', 36, NLMSG_ERROR, 0, seq, pid) + struct.pack('<i', -err) + hdr
 
 
@@ -234,19 +236,19 @@ class ModelKernel:
         """the k-th (0-based) request from now fails with errno"""
         self.fail_plan[len(self.log) + k] = errno
 
-    def request(self, data):
+    def request(self, data, portid=None):
         idx = len(self.log)
         try:
             req = decode_request(data)
         except (ValueError, struct.error) as ex:
             self.malformed.append((idx, data, str(ex)))
             self.log.append((data, None, EINVAL))
-            return ack(data, EINVAL)
+            return ack(data, EINVAL, portid)
         err = self.fail_plan.pop(idx, 0)
         if not err:
             err = self._apply(req)
         self.log.append((data, req, err))
-        return ack(data, err)
+        return ack(data, err, portid)
 
     def _apply(self, req):
         t = req['type']
